@@ -3,7 +3,7 @@
 From Coq Require Import List NArith ZArith Bool.
 From Coq.Strings Require Import Byte.
 From Coq Require Extraction ExtrOcamlBasic.
-From L3 Require Ber BerFixed BerInt Utf8 Frame FrameSpec FrameFixed Filter Escape Dn Entry Result UrlParams.
+From L3 Require Ber BerFixed BerInt Utf8 Frame FrameSpec FrameFixed Filter Escape Dn Entry Result UrlParams Request RequestSeq.
 Extraction Language OCaml.
 Extraction "model.ml"
   Byte.to_N Byte.of_N
@@ -13,4 +13,5 @@ Extraction "model.ml"
   Utf8.valid FrameFixed.decode_inner' FrameFixed.repaired_d FrameSpec.framed_run_buf
   Filter.parse Escape.ldap_escape Escape.ldap_unescape Dn.dn_escape Entry.construct
   Result.result_of_tree Result.success Result.non_error Result.cmp_equal Result.cmp_non_error
-  UrlParams.get_url_params.
+  UrlParams.get_url_params
+  RequestSeq.run_calls Request.cleared.
